@@ -984,6 +984,12 @@ func (c *Ctx) RuleErrLog() *Result {
 			key := load.FnName(fn) + ":error-log"
 			pos := c.P.InstrPos(em.Term)
 			blk := em.Term.Block()
+			if call := c.failedCallGuarding(blk); call != nil {
+				if v, have := c.ErrVerdicts()[call]; have && v.Verdict == Exempt {
+					res.ok(key, pos, "the emission is the handler of "+calleeLabel(&call.Call)+", which cannot fail here (reviewed exemption of ERR-HANDLE): unreachable")
+					continue
+				}
+			}
 			env := newEnvAt(blk)
 			bad := ""
 			c.explore(blk, instrIndex(em.Term)+1, env, exploreCB{
@@ -1416,9 +1422,23 @@ func isIoEOF(v ssa.Value) bool {
 	return ok && g.Pkg != nil && g.Pkg.Pkg.Path() == "io" && g.Name() == "EOF"
 }
 
+// stdStreamHook lets isStdStreamWriter follow a writer through parameters and helpers of the
+// repository (set by NewCtx; it needs the call graph).
+var stdStreamHook func(v ssa.Value, depth int) bool
+
 // isStdStreamWriter: os.Stdout / os.Stderr, or a bufio.Writer made from one of them.
 func isStdStreamWriter(v ssa.Value) bool {
+	return isStdStreamWriterDepth(v, 0)
+}
+
+func isStdStreamWriterDepth(v ssa.Value, depth int) bool {
+	if depth > 8 {
+		return false
+	}
 	v = stripConv(v)
+	if stdStreamHook != nil && stdStreamHook(v, depth) {
+		return true
+	}
 	if u, ok := v.(*ssa.UnOp); ok {
 		if g, ok := u.X.(*ssa.Global); ok && g.Pkg != nil && g.Pkg.Pkg.Path() == "os" && (g.Name() == "Stdout" || g.Name() == "Stderr") {
 			return true
@@ -1427,7 +1447,7 @@ func isStdStreamWriter(v ssa.Value) bool {
 	if call, ok := v.(*ssa.Call); ok {
 		f := staticCallee(&call.Call)
 		if (isFn(f, "bufio", "NewWriter") || isFn(f, "bufio", "NewWriterSize")) && len(call.Call.Args) > 0 {
-			return isStdStreamWriter(call.Call.Args[0])
+			return isStdStreamWriterDepth(call.Call.Args[0], depth+1)
 		}
 	}
 	return false
@@ -1441,4 +1461,41 @@ func isRepoSentinel(v ssa.Value) bool {
 	}
 	g, ok := ld.X.(*ssa.Global)
 	return ok && g.Pkg != nil && load.InModule(g.Pkg.Pkg.Path()) && isErrorType(derefType(g.Type()))
+}
+
+// failedCallGuarding: blk lies on the non-nil side of a nil test of the error
+// of a call; that call.
+func (c *Ctx) failedCallGuarding(blk *ssa.BasicBlock) *ssa.Call {
+	for b := blk; b != nil; b = b.Idom() {
+		d := b.Idom()
+		if d == nil {
+			return nil
+		}
+		iff, ok := d.Instrs[len(d.Instrs)-1].(*ssa.If)
+		if !ok || len(b.Preds) != 1 {
+			continue
+		}
+		cond, neg := unwrapNot(iff.Cond)
+		v, trueMeansNil, ok := nilTest(cond)
+		if !ok || !isErrorType(v.Type()) {
+			continue
+		}
+		nonNilSide := 1
+		if trueMeansNil == neg {
+			nonNilSide = 0
+		}
+		if d.Succs[nonNilSide] != b {
+			continue
+		}
+		switch x := v.(type) {
+		case *ssa.Call:
+			return x
+		case *ssa.Extract:
+			if call, ok := x.Tuple.(*ssa.Call); ok {
+				return call
+			}
+		}
+		return nil
+	}
+	return nil
 }
